@@ -391,6 +391,8 @@ class Translator:
             out.append(f"def {en}.ofValue? : String → Option {en}")
             out += [f"  | \"{v}\" => some .{m}" for m, v in ms]
             out.append("  | _ => none")
+            out.append(f"def {en}.memberName : {en} → String")
+            out += [f"  | .{m} => \"{m}\"" for m, _ in ms]
             out.append("")
         out.append("/-- one field per `GState.__slots__` entry -/")
         out.append("structure GState where")
